@@ -393,6 +393,11 @@ func c03Multi(r *ck.Run, cfg gw.Opts, ci int) {
 		// Protected: snapshot keys that must be unchanged / canaries that must not show up in dst
 		ProtectedPaths []string
 		NoCanaryIn     string // object (bucket/key) that must not contain another tenant's canary afterwards
+		// Caller defaults to usr3 (policy subject); Grants are PutBucketAcl headers on the arranged bucket;
+		// NoNewIn: no file may appear below this snapshot prefix
+		Caller  *gw.Creds
+		Grants  []string
+		NoNewIn string
 	}
 	both := func(b string) []string { return []string{b, b + "/*"} }
 	cases := []mcase{
@@ -446,13 +451,50 @@ func c03Multi(r *ck.Run, cfg gw.Opts, ci int) {
 				return NewReq("PUT", gw.ObjPath(w.Bucket, w.MpKey), gw.Q("uploadId", w.UploadID, "partNumber", "2"), H("x-amz-copy-source", w.Other+"/secret"), nil)
 			}},
 	}
+	// the destination is the caller's through ownership or an ACL grant (no policy anywhere): the access the
+	// caller has on one bucket must not be applied to the other bucket of the request
+	for _, how := range []struct {
+		Name   string
+		Caller gw.Creds
+		Grants []string
+	}{{"by-destination-owner", cUsr1, nil}, {"by-acl-full-control-grantee", cUsr3, []string{"x-amz-grant-full-control", "usr3"}}, {"by-acl-read-write-grantee", cUsr3, []string{"x-amz-grant-read", "usr3", "x-amz-grant-write", "usr3"}}} {
+		how := how
+		cases = append(cases,
+			mcase{Name: "CopyObject source-in-other-tenant-bucket " + how.Name, NoCanaryIn: "bk-main/stolen", Caller: &how.Caller, Grants: how.Grants,
+				Req: func(w *World) *gw.Req {
+					return NewReq("PUT", gw.ObjPath(w.Bucket, "stolen"), "", H("x-amz-copy-source", w.Other+"/secret"), nil)
+				}},
+			mcase{Name: "UploadPartCopy source-in-other-tenant-bucket " + how.Name, Caller: &how.Caller, Grants: how.Grants,
+				Req: func(w *World) *gw.Req {
+					return NewReq("PUT", gw.ObjPath(w.Bucket, w.MpKey), gw.Q("uploadId", w.UploadID, "partNumber", "2"), H("x-amz-copy-source", w.Other+"/secret"), nil)
+				}},
+			mcase{Name: "CopyObject destination-in-other-tenant-bucket " + how.Name, Caller: &how.Caller, Grants: how.Grants, NoNewIn: "root:bk-other/",
+				Req: func(w *World) *gw.Req {
+					return NewReq("PUT", gw.ObjPath(w.Other, "planted"), "", H("x-amz-copy-source", w.Bucket+"/obj1"), nil)
+				}},
+			mcase{Name: "CopyObject overwrite-in-other-tenant-bucket " + how.Name, Caller: &how.Caller, Grants: how.Grants, ProtectedPaths: []string{"root:bk-other/secret"},
+				Req: func(w *World) *gw.Req {
+					return NewReq("PUT", gw.ObjPath(w.Other, "secret"), "", H("x-amz-copy-source", w.Bucket+"/obj1"), nil)
+				}},
+		)
+	}
 	for _, mc := range cases {
 		w := NewWorld("c03m", cfg)
-		stmts := mc.Stmts(w)
-		Must(w.F.Do(gw.Root, "PUT", "/"+w.Bucket, "policy", nil, policyDoc(stmts)), "put policy "+mc.Name)
+		var stmts []refStmt
+		if mc.Stmts != nil {
+			stmts = mc.Stmts(w)
+			Must(w.F.Do(gw.Root, "PUT", "/"+w.Bucket, "policy", nil, policyDoc(stmts)), "put policy "+mc.Name)
+		}
+		if mc.Grants != nil {
+			Must(w.F.Do(gw.Root, "PUT", "/"+w.Bucket, "acl", H(mc.Grants...), nil), "put acl "+mc.Name)
+		}
+		caller := cUsr3
+		if mc.Caller != nil {
+			caller = *mc.Caller
+		}
 		base := w.F.G.Snapshot(gw.SnapOpts{IgnoreTmp: true})
 		req := mc.Req(w)
-		gw.Sign(req, cUsr3, gw.SignOpts{})
+		gw.Sign(req, caller, gw.SignOpts{})
 		resp := w.F.G.Do(req)
 		after := w.F.G.Snapshot(gw.SnapOpts{IgnoreTmp: true})
 		r.Add("evaluations", 1)
@@ -467,6 +509,9 @@ func c03Multi(r *ck.Run, cfg gw.Opts, ci int) {
 		for k, v := range after {
 			if base[k] == v {
 				continue
+			}
+			if mc.NoNewIn != "" && strings.HasPrefix(k, mc.NoNewIn) && !strings.Contains(k, ".sgwtmp") {
+				an = append(an, "object-created-in-unauthorised-bucket")
 			}
 			if strings.HasPrefix(k, "root:") {
 				data := readSnapFile(w, k)
